@@ -75,3 +75,10 @@ pub use crate::core::{txtpp, Config, Mode, Txtpp, Verbosity};
 pub mod error;
 mod fs;
 pub use crate::fs::TXTPP_FILE;
+
+/// Re-exports of internal items for the external verification harness (not part of the API).
+#[cfg(pistonite_txtpp_verif)]
+pub mod verif {
+    pub use crate::core::{DepManager, Directive, DirectiveType, ReplaceLineEnding, TagState};
+    pub use crate::fs::{AbsPath, TxtppPath};
+}
